@@ -81,8 +81,10 @@ Proof. exact structured_value_roundtrip. Qed.
    file of the canonical file language -- whose statements may now carry
        name !( layout [target: layout "text" layout , layout]
                       [key [= value] {, key [= value]} [,] layout ; layout] "message"
-   with keys = identifiers and values = digit runs, identifiers or string literals, ANY number of
-   key-values and ANY layout (white space, comments) between all tokens -- the finder returns exactly
+   with keys = identifiers, an optional modifier (: ? debug % display err sval serde), values = a digit
+   run, identifier or string literal followed by any further characters other than "," ";" or string
+   literals (u.name, x + 1), ANY number of key-values and ANY layout (white space, comments) between
+   all tokens -- the finder returns exactly
    `expected`, which for such a statement is stmt_stepA: *)
 Theorem C13_canonical_files : forall cfg its fin,
   items_ok its fin ->
@@ -153,17 +155,18 @@ Proof. exact stmt_stepA_message. Qed.
      warn!(target: "net", attempts = 3 ; "retry");      new ref after the target, ", "
      error!("boom");                                     new ref after the bracket, "; "
      debug!(target: "x", "plain");                      new ref after the target, "; "
-     info!(a, ref = 7 /* c */; "m");                    the value runs up to the delimiter: unusable (finding F10b) *)
+     info!(a, ref = 7 /* c */; "m");                    the value runs up to the delimiter: unusable (finding F10b)
+     warn!(user:? = u.name, n = x + 1, ref = 9; "m");   modifier, expression values; reference 9 found *)
 Definition kv_items : list (lay * item) :=
   [(([], []), IName (mkQ 102 false [(110, false)]));
    (([32], []), IName (mkQ 102 false []));
    (([], []), IChar 40);
    (([], []), IChar 41);
    (([32], []), IChar 123);
-   (([10;32;32;32;32], []), IStmtA (mkQ 105 false [(110, false);(102, false);(111, false)]) (mkArgs ([], []) None (Some ((mkKv (mkId 114 [101;102]) ([32], []) (Some (([32], []), VDigits 49 [50], ([], []))) true), [(([32], []), (mkKv (mkId 117 [115;101;114]) ([32], []) (Some (([32], []), VStr [MChar 98;MChar 111;MChar 98], ([], []))) false))], ([], []), ([32], []))) [MChar 104;MChar 101;MChar 108;MChar 108;MChar 111]));
+   (([10;32;32;32;32], []), IStmtA (mkQ 105 false [(110, false);(102, false);(111, false)]) (mkArgs ([], []) None (Some ((mkKv (mkId 114 [101;102]) ([32], []) None (Some (([32], []), (mkVal (VDigits 49 [50]) []), ([], []))) true), [(([32], []), (mkKv (mkId 117 [115;101;114]) ([32], []) None (Some (([32], []), (mkVal (VStr [MChar 98;MChar 111;MChar 98]) []), ([], []))) false))], ([], []), ([32], []))) [MChar 104;MChar 101;MChar 108;MChar 108;MChar 111]));
    (([], []), IChar 41);
    (([], []), IChar 59);
-   (([10;32;32;32;32], []), IStmtA (mkQ 119 false [(97, false);(114, false);(110, false)]) (mkArgs ([], []) (Some (mkTarg ([32], []) [MChar 110;MChar 101;MChar 116] ([], []), ([32], []))) (Some ((mkKv (mkId 97 [116;116;101;109;112;116;115]) ([32], []) (Some (([32], []), VDigits 51 [], ([32], []))) false), [], ([], []), ([32], []))) [MChar 114;MChar 101;MChar 116;MChar 114;MChar 121]));
+   (([10;32;32;32;32], []), IStmtA (mkQ 119 false [(97, false);(114, false);(110, false)]) (mkArgs ([], []) (Some (mkTarg ([32], []) [MChar 110;MChar 101;MChar 116] ([], []), ([32], []))) (Some ((mkKv (mkId 97 [116;116;101;109;112;116;115]) ([32], []) None (Some (([32], []), (mkVal (VDigits 51 []) []), ([32], []))) false), [], ([], []), ([32], []))) [MChar 114;MChar 101;MChar 116;MChar 114;MChar 121]));
    (([], []), IChar 41);
    (([], []), IChar 59);
    (([10;32;32;32;32], []), IStmt (mkQ 101 false [(114, false);(114, false);(111, false);(114, false)]) ([], []) [MChar 98;MChar 111;MChar 111;MChar 109]);
@@ -172,7 +175,10 @@ Definition kv_items : list (lay * item) :=
    (([10;32;32;32;32], []), IStmtA (mkQ 100 false [(101, false);(98, false);(117, false);(103, false)]) (mkArgs ([], []) (Some (mkTarg ([32], []) [MChar 120] ([], []), ([32], []))) None [MChar 112;MChar 108;MChar 97;MChar 105;MChar 110]));
    (([], []), IChar 41);
    (([], []), IChar 59);
-   (([10;32;32;32;32], []), IStmtA (mkQ 105 false [(110, false);(102, false);(111, false)]) (mkArgs ([], []) None (Some ((mkKv (mkId 97 []) ([], []) None true), [(([32], []), (mkKv (mkId 114 [101;102]) ([32], []) (Some (([32], []), VDigits 55 [], ([32], [(CBlock [32;99;32], [])]))) false))], ([], []), ([32], []))) [MChar 109]));
+   (([10;32;32;32;32], []), IStmtA (mkQ 105 false [(110, false);(102, false);(111, false)]) (mkArgs ([], []) None (Some ((mkKv (mkId 97 []) ([], []) None None true), [(([32], []), (mkKv (mkId 114 [101;102]) ([32], []) None (Some (([32], []), (mkVal (VDigits 55 []) []), ([32], [(CBlock [32;99;32], [])]))) false))], ([], []), ([32], []))) [MChar 109]));
+   (([], []), IChar 41);
+   (([], []), IChar 59);
+   (([10;32;32;32;32], []), IStmtA (mkQ 119 false [(97, false);(114, false);(110, false)]) (mkArgs ([], []) None (Some ((mkKv (mkId 117 [115;101;114]) ([], []) (Some (mkMod ([], []) [63] ([32], []))) (Some (([32], []), (mkVal (VIdent (mkId 117 [])) [(([], []), TChar 46);(([], []), TChar 110);(([], []), TChar 97);(([], []), TChar 109);(([], []), TChar 101)]), ([], []))) true), [(([32], []), (mkKv (mkId 110 []) ([32], []) None (Some (([32], []), (mkVal (VIdent (mkId 120 [])) [(([32], []), TChar 43);(([32], []), TChar 49)]), ([], []))) true));(([32], []), (mkKv (mkId 114 [101;102]) ([32], []) None (Some (([32], []), (mkVal (VDigits 57 []) []), ([], []))) false))], ([], []), ([32], []))) [MChar 109]));
    (([], []), IChar 41);
    (([], []), IChar 59);
    (([10], []), IChar 125)].
@@ -180,19 +186,20 @@ Definition kv_fin : lay := ([10], []).
 
 Example C13_canonical_nonvacuous :
   items_ok kv_items kv_fin /\
-  exists e1 e2 e3 e4 e5,
+  exists e1 e2 e3 e4 e5 e6,
     expected (mkConfig true [([108;111;103], [105;110;102;111]); ([108;111;103], [119;97;114;110]);
                              ([108;111;103], [101;114;114;111;114]); ([108;111;103], [100;101;98;117;103])])
-             (render_items kv_items kv_fin) kv_items [] = [e1; e2; e3; e4; e5] /\
+             (render_items kv_items kv_fin) kv_items [] = [e1; e2; e3; e4; e5; e6] /\
     (e_pos e1, e_line e1, e_col e1, e_ref e1, e_kind e1) = (25, 2, 17, Some 12, KStructuredPreExisting) /\
     (e_pos e2, e_line e2, e_col e2, e_ref e2, e_kind e2, e_suffix e2) = (78, 3, 26, None, KStructuredNew, Some [44; 32]) /\
     (e_pos e3, e_line e3, e_col e3, e_kind e3, e_suffix e3) = (114, 4, 12, KStructuredNew, Some [59; 32]) /\
     (e_pos e4, e_line e4, e_col e4, e_kind e4, e_suffix e4) = (147, 5, 25, KStructuredNew, Some [59; 32]) /\
-    (e_pos e5, e_ref e5, e_kind e5, usable e5) = (176, None, KStructuredPreExisting, false).
+    (e_pos e5, e_ref e5, e_kind e5, usable e5) = (176, None, KStructuredPreExisting, false) /\
+    (e_pos e6, e_line e6, e_col e6, e_ref e6, e_kind e6) = (237, 7, 45, Some 9, KStructuredPreExisting).
 Proof.
   split.
-  - cbn. repeat split; try reflexivity; try exact I; try discriminate; try (eexists; reflexivity).
-  - do 5 eexists. vm_compute. repeat split; reflexivity.
+  - cbn. repeat split; try reflexivity; try exact I; try discriminate; try (eexists; reflexivity); try (cbn; tauto).
+  - do 6 eexists. vm_compute. repeat split; reflexivity.
 Qed.
 
 (* non-vacuity on real text through the generated grammar: target + two key-values -> after the
